@@ -78,6 +78,7 @@ def after_merge_spec(layout, dst, depth):
                 depth,
                 init=[['open', 'bugfix/TEST-0', dst], ['eval_pr', 1],
                       ['ci_q_all', 'SUCCESSFUL'], ['eval_pr', 1],
+                      ['open', PR1, 'development/5.1'],
                       ['open', PR2, 'development/5.1']])
 
 
